@@ -1394,4 +1394,64 @@ def progKeys (defs : List (String × String × String)) (prog : List (String × 
 def timeKeys (c : Config) : List String :=
   (if c.rcd "time" then ["predict_time"] else []) ++ (if c.rcd "time" && c.learn != .none then ["learn_time"] else [])
 
+/-! ## Phase 6: a consumer that stops early (`evaluate` is a generator)
+
+`SequentialCB.evaluate` is a generator over a lazily read environment (`peek_first`, `BatchSafe(Finalize())`, `OpeRewards`,
+`_results`, `Unbatch` are all generators): a loop pass of `_results` runs only when the consumer asks for a row it yields.
+A consumer that takes the rows of the first `j` loop passes (un-batched: `j` rows; `Batch(n)`: `j·n` rows, `Unbatch` hands a
+batch's rows out one at a time) and then closes the generator has therefore made `_results` run exactly `j` passes — nothing
+of the later interactions is predicted, scored, learned or recorded, and `close()` (GeneratorExit at the `yield`) runs no
+further code of the loop.  Validation happens before the first pass, as in `evaluate`. -/
+def evaluateStopped [DecidableEq V] [RewardFn R V] (c : Config) (L : Learner σ V) (bs : Option Nat)
+    (env : List (Dict (Fld V R))) (s : σ) (j : Nat) : Outcome (σ × List (Call V) × List (Row V R)) :=
+  match env with
+  | [] => .ok (s, [], [])
+  | first :: _ =>
+    let miss := missingKeys c L.hasScore first
+    if !miss.isEmpty then .rejected miss
+    else
+      let fl := mkFlags first
+      match bs with
+      | some n => Outcome.ofExcept (runChunks c fl L true s [] [] ((chunks n env).take j))
+      | none => Outcome.ofExcept (runChunks c fl L false s [] [] ((chunks 1 env).take j))
+
+/-- the passes the generator would still run if the consumer resumed asking after `j` passes, from what the first `j`
+passes left (learner state, calls so far, rows so far) -/
+def resumeStopped [DecidableEq V] [RewardFn R V] (c : Config) (L : Learner σ V) (bs : Option Nat)
+    (env : List (Dict (Fld V R))) (j : Nat) (r : σ × List (Call V) × List (Row V R)) :
+    Outcome (σ × List (Call V) × List (Row V R)) :=
+  match env with
+  | [] => .ok r
+  | first :: _ =>
+    match bs with
+    | some n => Outcome.ofExcept (runChunks c (mkFlags first) L true r.1 r.2.1 r.2.2 ((chunks n env).drop j))
+    | none => Outcome.ofExcept (runChunks c (mkFlags first) L false r.1 r.2.1 r.2.2 ((chunks 1 env).drop j))
+
+/-- an abandoned evaluation inside a history: the learner goes on from the state the `j` passes left it in -/
+structure EpisodeS (V R : Type) extends Episode V R where
+  stop : Option Nat          -- `some j`: the consumer closes the generator after the rows of `j` passes
+
+def EpisodeS.run [DecidableEq V] [RewardFn R V] (L : Learner σ V) (e : EpisodeS V R) (s : σ) :
+    Outcome (σ × List (Call V) × List (Row V R)) :=
+  match e.stop with
+  | some j => evaluateStopped e.cfg L e.bs e.env s j
+  | none => evaluate e.cfg L e.bs e.env s
+
+def runHistoryS [DecidableEq V] [RewardFn R V] (L : Learner σ V) : σ → List (EpisodeS V R) →
+    List (Outcome (σ × List (Call V) × List (Row V R)))
+  | _, [] => []
+  | s, e :: es =>
+    let o := e.run L s
+    o :: runHistoryS L (stateAfter s o) es
+
+/-- the interactions an abandoned evaluation got through: `j` passes of `Batch(n)` are the first `j·n` interactions -/
+def EpisodeS.seen (e : EpisodeS V R) : Episode V R :=
+  match e.stop with
+  | none => e.toEpisode
+  | some j => { cfg := e.cfg, bs := e.bs, env := e.env.take (j * e.bs.getD 1) }
+
+/-- the consumer took at least one row before closing, and `Batch(n)` has `n ≥ 1` -/
+def EpisodeS.okStop (e : EpisodeS V R) : Prop :=
+  (∀ j, e.stop = some j → 0 < j) ∧ (∀ n, e.bs = some n → 0 < n)
+
 end Coba.C06
